@@ -1,6 +1,7 @@
 """C03 - every consumer is released when its stream ends or it is stopped."""
 from checks import fanout_common as fc
 from checks.c05 import registry_histories
+from vlib import Infra
 LEVEL = "model_checking"
 
 
@@ -28,11 +29,33 @@ def converters(ck):
         ck.violation("%s:%s:%s" % (b["why"], ev.get("kind", "stream"), ev.get("schedule", "")), "%s: %s" % (b["why"], ev), b)
 
 
+def multicast(ck):
+    """multicast players are consumers of the stream: when it ends every one of them has its connection closed"""
+    import os
+    tr = os.path.join(ck.tmp, "mcast.ndjson")
+    ck.run_driver("./transport", "^TestMulticast$", {"VERIF_OUT": tr}, timeout=600)
+    n = sum(1 for _ in open(tr))
+    if n < 6:
+        raise Infra("multicast leg produced %d records" % n)
+    rt = ck.tlc("fanout", "TransportTrace", "McastTrace.cfg", workers=1, env={"VERIF_TRACE": tr}, label="acceptance of the multicast-player leg")
+    if rt.distinct != n + 1:
+        raise Infra("trace validation consumed %d of %d" % (rt.distinct - 1, n))
+    ck.cov["multicast_leg"] = {"records": n}
+    ck.cov["traces_validated_against_impl"] += n
+    seen = set()
+    for b in rt.printed("@BAD"):
+        if not b["why"].startswith("C03:") or b["why"] in seen:
+            continue
+        seen.add(b["why"])
+        ck.violation(b["why"], "%s: %s" % (b["why"], b["ev"]), b)
+
+
 def run(ck):
     q = ck.quick()
     fc.run_family(ck, "C03", ["close2", "stopclose1", "flvclose2", "backlogstop1", "replace2"] if q else list(fc.fs.SCENARIOS),
                   ["C03"], 200 if q else 2000, 600 if q else 20000)
     converters(ck)
+    multicast(ck)
     # the ways a stream ends at registry level (unregister of a replaced publisher, replacement, admin close, idle
     # close) and attaching to a stream that has already ended: Registry.tla histories; only what concerns the
     # release of consumers and the closing of streams is attributed to C03
